@@ -57,7 +57,20 @@ PROGRAMS = [
     ("error-in-function", 'function g(a) return integer is begin return 1 / a; end; print "go"; print g(0);'),
     ("recursion-limit", 'function r(n) return integer is begin return r(n + 1); end; print r(1);'),
 ]
+# every interesting source byte at every kind of place: the file and stdin readers must hand the library the bytes of the file
+for _b in (0x01, 0x09, 0x0b, 0x0c, 0x1a, 0x1b, 0x7f, 0x80, 0xa0, 0xc3, 0xfe, 0xff):
+    _c = bytes([_b])
+    PROGRAMS.append(("byte-%02x-in-string" % _b, b'print "a' + _c + b'b"; print "next";\n'))
+    PROGRAMS.append(("byte-%02x-string-line-start" % _b, b'print "a\n' + _c + b'b";\nprint "next";\n'))
+    PROGRAMS.append(("byte-%02x-in-comment" % _b, b'print "x"; // c' + _c + b'd\nprint "next";\n'))
+    PROGRAMS.append(("byte-%02x-block-comment-line-start" % _b, b'print "x"; /* c\n' + _c + b' d */\nprint "next";\n'))
+    PROGRAMS.append(("byte-%02x-last-byte" % _b, b'print "x"; #' + _c))
+    PROGRAMS.append(("byte-%02x-bare" % _b, b'print "x";\n' + _c + b'\nprint "next";\n'))
 ARGS = ["", "a b", '"q"', "é", "-x", "--out=z", "-"]
+
+
+def tb(text):
+    return text if isinstance(text, bytes) else text.encode("utf-8")
 
 EXPRS = ["1 + 2", '"a" + "b"', "2.5 * 2", "1 < 2", "null", "tup(1, \"x\")", "1 + 2 * ii", "1 / 0", "1 +", "nosuch", "tab(2, 1)", 'raw("x")', "int()",
          "9223372036854775807 + 1", 'upper("abc")', "3 ** 39"]
@@ -122,6 +135,8 @@ def reference(programs, argvecs):
     cases = []
     for pi, (name, text) in enumerate(programs):
         for ai, av in enumerate(argvecs):
+            if name.startswith("byte-") and av:
+                continue
             ops = [op_ctx(0, True)]
             build_arg = '$ARG = tab(0, "");'
             for k, a in enumerate(av):
@@ -235,16 +250,18 @@ def run(tier):
     d = wdir()
     for pi, (name, text) in enumerate(PROGRAMS):
         path = os.path.join(d, "p%d.bloc" % pi)
-        with open(path, "w", encoding="utf-8") as f:
-            f.write(text)
+        with open(path, "wb") as f:
+            f.write(tb(text))
         for ai, av in enumerate(argvecs):
+            if name.startswith("byte-") and av:
+                continue
             for mode in ("file", "stdin", "out"):
                 if tier != "thorough" and mode != "file" and len(av) == 1 and ai % 2:
                     continue
                 if mode == "file":
                     argv, stdin, outfile = [path] + list(av), None, None
                 elif mode == "stdin":
-                    argv, stdin, outfile = ["-"] + list(av), text.encode("utf-8"), None
+                    argv, stdin, outfile = ["-"] + list(av), tb(text), None
                 else:
                     outfile = os.path.join(d, "o-%d-%d.txt" % (pi, ai))
                     argv, stdin = ["--out=" + outfile, path] + list(av), None
@@ -256,7 +273,7 @@ def run(tier):
         name, text = PROGRAMS[pi]
         av = argvecs[ai]
         step, rout = ref[(pi, ai)]
-        det = {"program": text, "args": list(av), "mode": mode, "exit": rc, "stdout": out[:400].decode("latin-1"), "stderr": err[:400].decode("latin-1"),
+        det = {"program": tb(text).decode("latin-1"), "args": list(av), "mode": mode, "exit": rc, "stdout": out[:400].decode("latin-1"), "stderr": err[:400].decode("latin-1"),
                "library": {k: v for k, v in step.items() if k in ("r", "msg", "line", "col", "ret", "no")}, "library_stdout": rout[:400].decode("latin-1")}
         col.count((name, mode, rc, step.get("r")))
         where = "program %s, args %r, mode %s" % (name, list(av), mode)
